@@ -704,6 +704,22 @@ var c02Mutants = []Mutant{
 	{ID: "C02-Q1-classify-unfiltered-round-msgs", File: "core/qbft/qbft.go", Expect: "Q1|classify",
 		Old: "commits := filterByRoundAndValue(flatten(buffer), MsgCommit, msg.Round(), msg.Value())",
 		New: "commits := extractRoundMsgs(buffer, msg.Round())"},
+	// Q1, thresholds written as arithmetic over the cluster size (folded over n, c02n5_eval.go)
+	{ID: "C02-Q1-classify-simple-majority", File: "core/qbft/qbft.go", Expect: "Q1|classify",
+		Old: "if len(prepares) >= d.Quorum() {",
+		New: "if len(prepares) >= d.Nodes/2+1 {"},
+	{ID: "C02-Q1-decided-floor-two-thirds", File: "core/qbft/qbft.go", Expect: "Q1|isJustifiedDecided",
+		Old: "return len(commits) >= d.Quorum()",
+		New: "return len(commits) >= (d.Nodes*2)/3"},
+	{ID: "C02-Q1-producer-n-minus-f", File: "core/qbft/qbft.go", Expect: "Q1|getJustifiedQrc",
+		Old: "if len(qrc) >= d.Quorum() && hasHighestPrepared {",
+		New: "if len(qrc) >= d.Nodes-d.Faulty() && hasHighestPrepared {"},
+	{ID: "C02-Q1-fplus1-third-of-nodes", File: "core/qbft/qbft.go", Expect: "Q1|getFPlus1RoundChanges",
+		Old: "\tif len(highestBySource) < d.Faulty()+1 {",
+		New: "\tif len(highestBySource) < d.Nodes/3 {"},
+	{ID: "C02-Q1-roundchange-two-f-plus-one", File: "core/qbft/qbft.go", Expect: "Q1|isJustifiedRoundChange",
+		Old: "\tif len(prepares) < d.Quorum() {",
+		New: "\tif q := 2*d.Faulty() + 1; len(prepares) < q {"},
 	// Q2
 	{ID: "C02-Q2-no-justification-check", File: "core/qbft/qbft.go", Expect: "Q2",
 		Old: "\t\t\tif !isJustified(d, instance, msg, compareFailureRound) { // Drop unjust messages\n\t\t\t\td.LogUnjust(ctx, instance, process, msg)\n\t\t\t\tbreak\n\t\t\t}\n\n",
